@@ -291,7 +291,8 @@ class BodyMixin:
         self._body.seek(0)
         read = self._body.read
         max_content_length = self.config.max_memfile_size
-        content_length = self.content_length
+        # the length of a chunked body is unknown until it is decoded: a Content-Length sent along does not describe it (RFC 7230 3.3.3)
+        content_length = -1 if self.chunked else self.content_length
 
         if content_length > max_content_length:
             raise self._raise(BodySizeError(), RequestError)
